@@ -329,7 +329,8 @@ def serialize(ast, var_index):
                 # AST) and survives the copying extensions; the model tracks the names of VARIABLES only and is a sound
                 # over-approximation here ({F,T} where the real answer is exact): outside the exact correspondence
                 def core(x):
-                    while getattr(x, "op", None) in ("ZeroExt", "SignExt", "Extract"):
+                    while getattr(x, "op", None) in ("ZeroExt", "SignExt") or (
+                            getattr(x, "op", None) == "Extract" and x.args[1] == 0 and x.args[0] + 1 == x.args[2].size()):
                         x = x.args[-1]
                     return x
                 ca, cb = core(n.args[0]), core(n.args[1])
